@@ -159,6 +159,7 @@ func ruleEntryPoints(c *Ctx) {
 				if !ok {
 					// an error value guarded by err != nil
 					n := NewNormer(c.P)
+					n.Bind[r1] = "err" // the guard is on this very value, whatever produced it
 					rc := n.ReachCond(fn, nil, ret.Block())
 					notNil := cNot(&Cond{Kind: CBool, Name: eqName(n.Norm(r1).asAtom(), "nil")})
 					if imp, _, _ := CondRelation(rc, notNil); imp && !isNilConst(r1) {
@@ -337,7 +338,9 @@ type guardSpec struct {
 }
 
 func bindCalls(n *Normer, p *Prog, fn *ssa.Function, calls map[string]string, ext map[string][2]string) {
-	eachInstr(fn, func(b *ssa.BasicBlock, ins ssa.Instruction) {
+	// (also in the unexported helpers fn delegates to: a step may be moved into a helper)
+	p.deepEach(fn, 2, func(s DeepSite) {
+		ins := s.Ins
 		call, ok := ins.(*ssa.Call)
 		if !ok || calleeOf(call) == nil {
 			return
